@@ -104,7 +104,7 @@ def cmpRight (r : Expr) (want : Option Bool) : GenM (Nat × Bool × List Nat × 
 (offset still 0): `opcode (+ SHORT) (+ REG)`, `dst`, `src`, immediate -/
 def cmpCore (jop : Nat) (l r : Expr) : GenM (Nat × Insn) := do
   let lres ← calculate l none none false
-  let rr ← cmpRight r (if l.signed && lres.long then some true else none)
+  let rr ← cmpRight r (if (l.signed || r.signed) && lres.long then some true else none)
   let sg := l.signed || r.signed
   widenIf (sg && !lres.long && rr.2.1) lres.reg
   let origin ← curLen
